@@ -337,8 +337,10 @@ class NestedChildren(WrappingQuery):
                 # Move the parent matcher to the next match
                 m.next()
 
-                # Find the next parent document (matching or not) after this
-                nextparent = comb.after(nextchild)
+                # Find the next parent document (matching or not) after the
+                # matched parent (which is the next document itself if the
+                # matched parent has no children)
+                nextparent = comb.after(nextchild - 1)
                 if nextparent is None:
                     nextparent = limit
 
